@@ -177,7 +177,7 @@ theorem strictGo_cons (lc : List Char) (label : Option Str) (seq : List Str) (li
         if !seq.isEmpty then .error .recordError
         else strictGo lc (some (strip (line.drop 1))) [] rest
     else strictGo lc label (seq ++ [strip line]) rest := by
-  rw [strictGo]
+  rfl
 
 theorem fasterGo_cons (lc : List Char) (label : Option Str) (seq : List Str) (line : Str) (rest : List Str) :
     fasterGo lc label seq (line :: rest) =
@@ -186,7 +186,7 @@ theorem fasterGo_cons (lc : List Char) (label : Option Str) (seq : List Str) (li
       (if seq.isEmpty then [] else [(label.getD [], clean seq)]) ++
         fasterGo lc (some (strip (line.drop 1))) [] rest
     else fasterGo lc label (seq ++ [strip line]) rest := by
-  rw [fasterGo]
+  rfl
 
 theorem strictGo_seqLines {lc : List Char} (label : Option Str) : ∀ (ws : List Str) (seq rest : List Str),
     (∀ w ∈ ws, wfSeq lc w = true) → strictGo lc label seq (ws ++ rest) = strictGo lc label (seq ++ ws) rest
